@@ -40,7 +40,7 @@ inline std::vector<cell_type_param_ptr> make_types(const Plan& pl) {
         t[k] = make_cell_type(k, nft, 1e-5);
         t[k]->max_pressure_ = pl.get("max_pressure", 1e300);
         if (pl.p.count("density")) t[k]->mass_density_ = pl.get("density");
-        t[k]->area_elasticity_modulus_ = pl.get("area_elasticity", 0);
+        t[k]->area_elasticity_modulus_ = (k > 0 && pl.p.count("area_elasticity_other")) ? pl.get("area_elasticity_other") : pl.get("area_elasticity", 0);
         t[k]->angle_regularization_factor_ = pl.get("angle_reg", 0);
         t[k]->surface_coupling_max_curvature_ = pl.get("max_curvature", 2.5e6);
         t[k]->target_isoperimetric_ratio_ = 150;
@@ -50,7 +50,7 @@ inline std::vector<cell_type_param_ptr> make_types(const Plan& pl) {
             ft.surface_tension_ = pl.get("tension", 1e-3) * (1.0 - 0.2 * (double)f);
             ft.repulsion_strength_ = pl.get("repulsion", 1e9);
             ft.adherence_strength_ = pl.get("adhesion", 1e9);
-            ft.bending_modulus_ = pl.get("bending", 0);
+            ft.bending_modulus_ = (k > 0 && pl.p.count("bending_other")) ? pl.get("bending_other") : pl.get("bending", 0);   // cell types may differ in which energies they have
         }
     }
     // epithelial growth / division / removal law parameters
